@@ -90,6 +90,21 @@ def build(members, align=4096, data_order=None, gap=0, gz=False, trailing=0):
     return (gzip.compress(out, mtime=0) if gz else out), offs
 
 
+def build_sparse(members, offsets):
+    """Visor-only archive as a sparse Image: member i's data lives at the absolute offset offsets[i] (any u32 value)."""
+    from mc.vfile import Image
+
+    head = bytearray()
+    img = Image("vmtar")
+    for (name, kind, data), off in zip(members, offsets):
+        assert kind == "visor"
+        head += hdr(name, len(data), offset_data=off)
+        img.put(off, data, meta=False)
+    head += b"\0" * 1024
+    img.put(0, bytes(head))
+    return img
+
+
 def selfvalidate():
     import os
 
